@@ -52,9 +52,9 @@ CHECKS = {
  'C16': dict(tech='TLA+ model of the group law on point names with each method\'s documented domain (CurveOps.tla) checked and enumerated by TLC; in-domain cases replayed on the real curve gadgets against native scalar multiplication',
              text='Points are named by discrete logarithm (infinity, P=Q, P=-Q arise as names), scalars by 0..3, r-1, r, r+1; TLC checks the domain rules of Add / AddUnified / Double / Neg / ScalarMul / ScalarMulBase / JointScalarMulBase / MultiScalarMul with and without complete arithmetic for consistency and enumerates 444 cases; every in-domain case runs on sw_emulated (secp256k1, BN254, BLS12-381, BW6-761, P-256, P-384) and on the native twisted Edwards curve and must equal the native [k]G, [k+1]G must be rejected; hang-prone cases run one per process under a timeout.',
              note='Curve arithmetic only: pairing gadgets, ECDSA / EdDSA and the EVM precompile wrappers, and dishonest GLV / fake-GLV hint outputs are not covered.', ref='6 C16 / 11.2'),
- 'C17': dict(tech='TLA+ decision model of Groth16 verification (Groth16Protocol.tla, the C01 behaviours) with every behaviour judged by the native verifier and replayed on the in-circuit verifier of std/recursion/groth16',
-             text='TLC enumerates circuit shape x edit sequences (element replacement classes incl. other-proof, negation, infinity, torsion; public-input edits; padding); each edited (proof, key, witness) is verified natively over BLS12-377 and assigned to the in-circuit verifier compiled over BW6-761 with complete arithmetic and subgroup checks; the outer circuit must be satisfiable (test engine) exactly when the native verifier accepts.',
-             note='Groth16 two-chain with witness-supplied key, inner circuits without commitments; PLONK recursion, emulated pairings, Pedersen / KZG gadgets on their own and key switching are not covered.', ref='6 C17 / 11.2'),
+ 'C17': dict(tech='TLA+ decision models of the inner verifiers (Groth16Protocol.tla, PlonkProtocol.tla: the C01 / C02 behaviours) composed with a TLA+ model of the outer configurations (Recursion.tla: key as witness / constant / selected among candidates, batches, arithmetic option) checked by TLC; every (behaviour, configuration) judged by the native verifier with the recursion options and replayed on the in-circuit verifiers of std/recursion/groth16 and std/recursion/plonk',
+             text='TLC enumerates inner circuit shape x edit sequences (element replacement classes incl. other-proof, negation, infinity, torsion, off-subgroup; claimed values; public inputs; other keys; tampered assignments; padding) for Groth16 (0-1 commitment) and PLONK (0-2 commitments), and Recursion.tla enumerates 42 outer configurations (witness-supplied key, constant key, SwitchVerificationKey / AssertDifferentProofs with 1-2 candidate keys and a selector that designates the own key, another key or no key, AssertSameProofs batches, complete / incomplete arithmetic) with the invariant "accept only against the selected key". Each pair is verified natively over BLS12-377 with the recursion options and assigned to the in-circuit verifier over BW6-761; the outer circuit must be satisfiable (test engine) exactly when the native verifier accepts the triple against the selected key.',
+             note='Two-chain BLS12-377 in BW6-761 only; emulated pairings not covered; the outer circuit is evaluated by the test engine, not proven; F22 (PLONK gadget has no subgroup check) open.', ref='6 C17 / 11.2'),
  'C18': dict(tech='TLA+ model of contribution chains (MpcSetup.tla) enumerated by TLC; every transcript replayed on the real mpcsetup package through serialization, verdicts and extracted keys compared',
              text='TLC enumerates, for both phases, circuits with 0, 1 or 2 commitments (and a phase-1 domain larger than needed) and 1-3 contributions, the transcripts a verifier may be handed: honest, one serialized element altered (every component x first/mid/last x double/negation/infinity, challenge bit flip), contributions swapped, dropped, duplicated, spliced from a second honest chain, a dishonest contributor binding its update proofs to a challenge of its own choosing, phase 2 checked against another phase-1 output or another circuit; the verdict is "every contribution unaltered and extending its predecessor". Each transcript goes through WriteTo / byte edit / ReadFrom / VerifyPhase1|2 of the real package on the curves; accepted phase-2 transcripts must give keys that prove, verify and reject other public inputs.',
              note='Knowledge soundness of the update proofs is an ideal rule; replacements are other valid group elements, not arbitrary bytes; small domains only.', ref='6 C18 / 11.2'),
